@@ -38,7 +38,7 @@ def gen(kind, rng):
         return datetime.time(rng.randrange(24), rng.randrange(60), rng.randrange(60), rng.choice([0, 1, 999, 1000, 500000, 999999, rng.randrange(10 ** 6)]))
     if kind == 'instant':
         us = rng.randrange(-62135596800 * 10 ** 6 + 3 * 86400 * 10 ** 6, 253402300799 * 10 ** 6 - 3 * 86400 * 10 ** 6)
-        return datetime.datetime(1970, 1, 1) + td(microseconds=us - us % 1000)          # GraphSON instants carry milliseconds
+        return datetime.datetime(1970, 1, 1) + td(microseconds=rng.choice([us, us - us % 1000, us - us % 10 ** 6]))       # the driver writes all six fractional digits: a microsecond instant must come back whole
     if kind == 'duration':
         return rng.choice([td(0), td(microseconds=1), td(microseconds=99), td(seconds=1, microseconds=300000), td(days=42, hours=10, minutes=5, seconds=37),
                            td(seconds=-1), td(seconds=-1, microseconds=-500000), td(days=-3, hours=2), td(days=109768, seconds=62124, microseconds=1),
